@@ -131,7 +131,14 @@ func C14Cases(p *spec.Program, cfgs []spec.Config, seed uint64, tier string, nSc
 				split[d.Name] = spec.ChCLI
 			}
 		}
+		// parameters the plugin does not define (the YAML spellings of option names, junk) are part of a
+		// request like any other: they ride along on every run of odd-numbered configurations
+		var junk []string
+		if ci%2 == 1 {
+			junk = []string{"sensitive_fields=Junk.A+Junk.B", "duration_custom_type=JunkDuration", "exclude=Junk.C", "computed=Junk.D", "required=Junk.E", "Types=Junk", "unknown_option=1"}
+		}
 		ref := runFrom(cfg.Render(split, nil))
+		ref.Params = append(ref.Params, junk...)
 		ref.Sim = &Schedule{MapMode: "identity", ClockEpoch: 1_000_000_000, ClockStepNs: 1000}
 		ref.Note = "reference: identity schedule, canonical config order, unchunked stdin"
 		for i := 0; i < nSched; i++ {
@@ -171,6 +178,15 @@ func C14Cases(p *spec.Program, cfgs []spec.Config, seed uint64, tier string, nSc
 					run.Chunks = []int{1 + rr.Intn(200)}
 				}
 				run.Note = "seeded schedule"
+			}
+			if len(junk) > 0 {
+				pos := rr.Intn(len(run.Params) + 1)
+				jp := append([]string{}, junk...)
+				for a := len(jp) - 1; a > 0; a-- {
+					b := rr.Intn(a + 1)
+					jp[a], jp[b] = jp[b], jp[a]
+				}
+				run.Params = append(append(append([]string{}, run.Params[:pos]...), jp...), run.Params[pos:]...)
 			}
 			rf := ref
 			cases = append(cases, &Case{Property: "C14", Clause: fmt.Sprintf("repeatable/cfg%d/sched%d", ci, i), Seed: seed, Tier: tier,
